@@ -13,7 +13,10 @@ use std::rc::Rc;
 fn gen(t: &mut Tape, _tier: Tier) -> Scenario {
     let mut sc = Scenario::new("c16");
     let mut opts = OptSpec::default();
-    let kind = t.below(3); // 0 over-long valid (completion latch), 1 corrupt (failure latch), 2 valid
+    // 0 over-long valid (completion latch), 1 corrupt (failure latch), 2 valid,
+    // 3 fatal error in the header phase (invalid properties byte), possibly
+    //   followed by a complete valid stream
+    let kind = t.below(4);
     let b = gen_lzma(t, if kind == 0 { 2 } else { 0 }, 2500);
     opts.mode = t.below(3);
     let size = if b.marker { None } else { Some(b.expect.len() as u64) };
@@ -44,6 +47,24 @@ fn gen(t: &mut Tape, _tier: Tier) -> Scenario {
     } else if kind == 1 {
         let m = mutate(t, &mut input);
         note = format!("mutation: {}", m);
+    } else if kind == 3 {
+        let bad = 225 + t.below(31) as u8;
+        match t.below(3) {
+            0 => input[0] = bad,
+            1 => {
+                // one bad byte, then a complete valid stream
+                let mut v = vec![bad];
+                v.extend_from_slice(&input);
+                input = v;
+            }
+            _ => {
+                input = vec![bad];
+                let n = t.below(30) as usize;
+                let e = gen::draw_bytes(t, n);
+                input.extend_from_slice(&e);
+            }
+        }
+        note = format!("invalid properties byte {} in the header", bad);
     } else {
         sc.set_b("expect", b.expect.clone());
         sc.set_i("valid", 1);
